@@ -133,6 +133,20 @@ theorem merge_iter_sorted (ks : List OrdKey) (ls : List (List Row)) (hs : ∀ l 
 example : mergeK (keyCmp [⟨0, false⟩]) 6 [[[.i32 1], [.i32 2], [.i32 9]], [[.i32 5], [.i32 6], [.i32 7]]]
     = [[.i32 1], [.i32 2], [.i32 5], [.i32 6], [.i32 7], [.i32 9]] := by decide
 
+/-- The loop bounds and child indices of `MergeIterator::replace_pending_data`, as RE-EXTRACTED FROM
+THE SOURCE on every run (`Gen/MergeHeap.lean`), are exactly those of a binary heap: left child
+`2i+1`, right child `2i+2`, stop when the left child is outside `0..len`, look at the right child
+iff it is inside (for a non-empty heap, which is when the loop runs). Every theorem about the merging scan below depends on this one; an off-by-one in
+a bound (e.g. the seeded change `right_child < len - 1`) makes it - and them - fail. -/
+theorem merge_heap_bounds : MergeBoundsExact := by
+  refine ⟨?_, ?_, ?_, ?_⟩
+  · intro i; simp only [Gen.mergeLeftIdx]; omega
+  · intro i; simp only [Gen.mergeRightIdx]; omega
+  · intro a n hn; unfold Gen.mergeLeftStop; first | rfl | (rw [decide_eq_decide]; omega)
+  · intro a n hn; unfold Gen.mergeRightOk; first | rfl | (rw [decide_eq_decide]; omega)
+
+example : Gen.mergeRightOk 2 3 = true ∧ Gen.mergeLeftStop 3 3 = true := by decide
+
 /-- The REAL MergeIterator: array-embedded binary min-heap over the child iterators with the
 code's sift-up / sift-down / pop and chunk-wise refills (`Model/Heap.lean mergeHeap`). For any
 number of child iterators, any chunking, any duplicates: sorted children give a sorted output that
@@ -150,7 +164,7 @@ theorem merge_heap_sorted (ks : List OrdKey) (streams : List (List (List Row)))
   have hlen : (remaining (mergeInit (keyCmp ks) 0 streams [])).length ≤ (streams.map fun s => s.flatten.length).sum := by
     rw [hperm'.length_eq, List.length_flatten, List.map_map]
     exact Nat.le_refl _
-  obtain ⟨h1, h2⟩ := mergeHeapLoop_spec L _ _ hinv hlen
+  obtain ⟨h1, h2⟩ := mergeHeapLoop_spec merge_heap_bounds L _ _ hinv hlen
   exact ⟨h1, h2.trans hperm'⟩
 
 example : ∀ s ∈ ([[[[.i32 1], [.i32 2]], [[.i32 9]]], [[[.i32 5], [.i32 5], [.i32 7]]], []] : List (List (List Row))),
